@@ -7,7 +7,7 @@ from hypothesis import strategies as st
 from vlib import catalogue as cat
 from vlib import strategies as vs
 from vlib.models.hdm import HdmModel
-from vlib.runner import SubCheck, Violation, sut
+from vlib.runner import Decoy, SubCheck, Violation, sut
 from vlib.tolerant import Forker, close
 
 
@@ -21,9 +21,13 @@ def _trim(case, i):
 def present(X, container, ncols):
     import pandas as pd
 
-    if container == "df":
-        return pd.DataFrame(np.array(X, dtype=float), columns=[f"f{j}" for j in range(ncols)])
-    return np.array(X, dtype=float)
+    a = np.array(X, dtype=float)
+    integral = bool(np.array_equal(a, np.round(a)))
+    if container.endswith("_int") and integral:
+        a = a.astype(np.int64)  # the same values carried by an integer dtype
+    if container.startswith("df"):
+        return pd.DataFrame(a, columns=[f"f{j}" for j in range(ncols)])
+    return a
 
 
 def check_history(case, ctx):
@@ -38,6 +42,9 @@ def check_history(case, ctx):
         det = spec.make(p)
         np.random.seed(base)
         det.set_reference(present(items[0], container, ncols))
+    decoy = Decoy(lambda: spec.make(p), lambda d, X_, first: (d.set_reference(X_) if first else d.update(X_)), every=1)
+    np.random.seed(base + 7919)
+    decoy.step(present(items[0], container, ncols), True)
     model = HdmModel(p["divergence"], p["detect_batch"], p["statistic"], p["significance"], p["subsets"], user_fn=cat.total_divergence)
     model.set_reference(items[0])
     fk = Forker(model, copier=lambda m: m.clone())
@@ -51,6 +58,8 @@ def check_history(case, ctx):
     multi_feature_drift = False
     for i in range(1, len(items)):
         X = items[i]
+        np.random.seed(base + i + 7919)
+        decoy.step(present(X, container, ncols), False)
         with sut(detector=name):
             np.random.seed(base + i)
             det.update(present(X, container, ncols))
@@ -110,7 +119,7 @@ def check_history(case, ctx):
                 fail("hdm-feature-info", i, f"feature_info={fi}; per-feature distances {o['fd']}, their changes {o['feps']}")
             multi_feature_drift = True
     m = fk.states[0]
-    ctx.label(name, f"detect_batch={p['detect_batch']}", f"div={p['divergence']}", f"stat={p['statistic']}", f"drifts={min(m.ndrift, 3)}", f"container={container}")
+    ctx.label(name, f"detect_batch={p['detect_batch']}", f"div={p['divergence']}", f"stat={p['statistic']}", f"drifts={min(m.ndrift, 3)}", f"container={container}", f"flavour={case.get('flavour', 'grid')}")
     if multi_feature_drift:
         ctx.label("multi-feature-drift")
     if fk.forked_steps:
@@ -126,8 +135,27 @@ def strat_history(tier):
         spec = cat.SPECS[name]
         p = draw(spec.params())
         ncols = draw(spec.ncols())
-        items = draw(vs.batch_history(ncols, n_min=4, n_max=15, rows_min=4, rows_max=60, spread=2, shift=4, p_shift=0.4))
-        return {"det": name, "params": p, "items": items, "seed_base": draw(vs.seed_base), "container": draw(st.sampled_from(["nd", "nd", "df"]))}
+        flavour = draw(st.sampled_from(["grid", "grid", "grid", "int-reference", "codes"]))
+        container = draw(st.sampled_from(["nd", "nd", "df"]))
+        if flavour == "codes":
+            # integer codes 0..9 with both ends present in every batch (the common range never moves) and
+            # strongly varying batch sizes (the bin count floor(sqrt(n)) of a drifted batch may equal the old one)
+            nb = draw(st.integers(4, 10))
+            items = []
+            for i in range(nb):
+                n = draw(st.sampled_from([5, 8, 20, 50, 60, 80, 150, 200]))
+                hi = draw(st.sampled_from([3, 6, 9]))
+                rows = draw(st.lists(st.lists(st.integers(0, hi).map(float), min_size=ncols, max_size=ncols), min_size=n, max_size=n))
+                rows[0] = [0.0] * ncols
+                rows[1] = [9.0] * ncols
+                items.append(rows)
+            container = draw(st.sampled_from(["nd", "nd_int", "df", "df_int"]))
+        else:
+            items = draw(vs.batch_history(ncols, n_min=4, n_max=15, rows_min=4, rows_max=60, spread=2, shift=4, p_shift=0.4))
+            if flavour == "int-reference":
+                items[0] = [[float(round(v)) for v in r] for r in items[0]]
+                container = draw(st.sampled_from(["nd_int", "df_int"]))  # integer-typed reference, float batches afterwards
+        return {"det": name, "params": p, "items": items, "seed_base": draw(vs.seed_base), "container": container, "flavour": flavour}
 
     return s()
 
@@ -195,7 +223,7 @@ PROPERTY = {
     "rule": (
         "history: HDDDM (1-3 features) / CDBD (1 feature): reference + 3-14 test batches of 4-60 rows with location/scale shifts x divergence "
         "{Hellinger, JS ('KL'), user function (total variation)} x detect_batch 1..3 x statistic x significance x subsets 2..6, ndarray or "
-        "DataFrame inputs. The reference model recomputes bins, aligned histograms, per-feature and averaged distances, epsilon, the adaptive "
+        "DataFrame inputs; flavours: grid values, integer-typed reference followed by float batches, integer codes 0..9 with a fixed common range and batch sizes 5..200. The reference model recomputes bins, aligned histograms, per-feature and averaged distances, epsilon, the adaptive "
         "threshold (incl. the bootstrap estimate replicated with pandas' sample under the same numpy seed), the decision, reference "
         "growth/replacement (incl. the positional split for detect_batch=1), feature_epsilons and feature_info; all public records are compared "
         "after every update (1e-9). Non-trivial = >= 2 drifts and a threshold computed in the second or a later epoch. "
